@@ -7,6 +7,7 @@ result must be known non-NULL (the path condition of a preceding test) where it 
 
   * stored into a container slot       PyTuple_SET_ITEM / PyList_SET_ITEM (a NULL slot crashes the first reader)
   * dereferenced                       `p->field`, Py_INCREF(p), Py_DECREF(p), Py_TYPE(p), PyTuple_GET_ITEM(p, ..)
+  * (the same for a local that was initialised or reset to NULL and may still hold it where it is used)
   * returned together with a success code is NOT checked here (T-REF / the functional families do that).
 
   M-NULL:<function>:<sink>[<k>]:checked-before-use
@@ -89,6 +90,9 @@ class MNull(CExec):
         ids = {f.get_id() for f in self.fallible}
         if v.get_id() in ids:
             return [(cond if cond is not None else z3.BoolVal(True), v)]
+        if cond is not None and z3.is_int_value(v) and v.as_long() == 0:
+            # a NULL the local was initialised / reset with, still there on this branch
+            return [(cond, v)]
         if z3.is_app(v) and v.decl().kind() == z3.Z3_OP_ITE:
             c = v.arg(0)
             a = z3.And(cond, c) if cond is not None else c
